@@ -81,7 +81,7 @@ pub fn judge_case(c: &Case) -> Obs {
         RunSpec { stack: p.built.stack, minimal: true, fuel: BUDGET + 2, input: input.clone() },
     );
     let Some(po) = outcome_of(&mut obs, "C09", &plain, &shown) else { return obs };
-    let fuel = 4 * (rr.steps + cmds.len() as u64 + 2) + 64;
+    let fuel = 8 * (rr.steps + cmds.len() as u64 + 2) + 64;
     let dbg = run_lace(&p, &script, &input, fuel);
     let Some(d) = outcome_of(&mut obs, "C09", &dbg, &shown) else { return obs };
     if d.stop == Stop::OutOfFuel {
@@ -134,6 +134,59 @@ pub fn judge_case(c: &Case) -> Obs {
     obs
 }
 
+/// The same relation through the real binary: `lace debug --minimal --command <script>` against
+/// `lace run --minimal` (sample; the in-process check above is the workhorse).
+pub fn judge_cli(c: &Case) -> Obs {
+    let mut obs = Obs::default();
+    let p = match prepare(&c.spec, Layout { seed: 11, style: 1, end: false }) {
+        Ok(p) => p,
+        Err(why) => {
+            obs.excluded = Some(why);
+            return obs;
+        }
+    };
+    let input: Vec<u8> = if c.explicit_quit { c.input.clone() } else { vec![] };
+    let rr = refvm::run(Vm::load(p.orig, &p.img.words, p.built.stack), &input, BUDGET, Some(0xFFFD));
+    if matches!(rr.stop, RunStop::OutOfFuel | RunStop::Unspecified(_)) || rr.printed_escape || input.iter().take(rr.consumed).any(|b| *b >= 0x80) {
+        obs.excluded = Some("not a terminating, fully specified run");
+        return obs;
+    }
+    let cmds: Vec<Cmd> = c.cmds.iter().map(|r| if r.kind & 0x80 != 0 { make_inspect_cmd(&p, r) } else { make_control_cmd(&p, r) }).collect();
+    if cmds.iter().any(|c| matches!(c, Cmd::Echo(t) if !t.is_ascii())) {
+        // keep the sample on the ASCII subset of scripts (the in-process check covers the rest)
+    }
+    let aliases: Vec<u8> = c.cmds.iter().map(|r| r.alias).collect();
+    let script = script_text(&cmds, &aliases, cmds.len(), false, if c.explicit_quit { Some("quit") } else { None });
+    let shown = show_case(&p, &script, &input);
+    obs.show = Some(shown.clone());
+    obs.key = hash_of(&("cli", &p.text, &script, &input));
+    obs.label("cli-pair");
+    let dir = crate::cli::TempDir::new();
+    dir.write("p.asm", p.text.as_bytes());
+    let feat: Vec<&str> = if p.built.stack { vec!["-f", "stack"] } else { vec![] };
+    let mut a = vec!["run", "p.asm", "--minimal"];
+    a.extend(&feat);
+    let plain = crate::cli::lace(&a, dir.path(), &input, false, 60);
+    let mut b = vec!["debug", "p.asm", "--minimal", "--command", script.as_str()];
+    b.extend(&feat);
+    // an empty script would make the debugger read the (empty) stdin: fine
+    let dbg = crate::cli::lace(&b, dir.path(), &input, false, 60);
+    if plain.timed_out || dbg.timed_out {
+        obs.excluded = Some("watchdog");
+        return obs;
+    }
+    let resumes = cmds.iter().filter(|c| c.is_resuming()).count();
+    obs.nontrivial = resumes >= 2 && rr.steps >= 3;
+    if dbg.panicked() {
+        obs.set_fail("C09:debugger-crashes", format!("`lace debug` crashed: {}\n{shown}", dbg.brief()));
+    } else if plain.code != dbg.code {
+        obs.set_fail("C09:exit-status-differs", format!("lace run: {}\nlace debug: {}\n{shown}", plain.brief(), dbg.brief()));
+    } else if plain.stdout != dbg.stdout {
+        obs.set_fail("C09:program-output-differs", format!("lace run: {}\nlace debug: {}\n{shown}", plain.brief(), dbg.brief()));
+    }
+    obs
+}
+
 fn cases() -> impl Strategy<Value = Case> {
     (proggen::prog_spec(24), prop::collection::vec(raw_cmd(), 0..14), input_bytes(), any::<bool>()).prop_map(|(spec, cmds, input, explicit_quit)| Case { spec, cmds, input, explicit_quit })
 }
@@ -145,7 +198,7 @@ impl Prop for C09 {
     fn rule(&self) -> &'static str {
         "ProgGen programs that terminate under RefVM (all endings incl. error exits and jumps to 0xFFFF, self-modifying code, .break directives, input-reading programs) x scripts of 0-13 commands over {step, step into k, step out, continue, break add/remove/list, print, registers, assembly, echo, help} with generated valid and invalid arguments, ended by `quit` or by end of input. \
          Oracle: program output, exit status, input consumption, executed-instruction count and the full final snapshot (registers, PC, CC, all memory) of the debugged run equal those of the plain run of the same source (both by lace; the plain run is independently checked against RefVM in C03). \
-         Non-trivial: the script resumes execution at least twice and the debugger pauses at least once (breakpoint, HALT, step complete, bounds). Distinct = hash(source, script, input)."
+         A sample of the same pairs also runs through the real binary (`lace debug --minimal --command <script>` vs `lace run --minimal`: stdout and exit status byte-identical). Non-trivial: the script resumes execution at least twice and the debugger pauses at least once (breakpoint, HALT, step complete, bounds). Distinct = hash(source, script, input)."
     }
     fn assumptions(&self) -> Vec<String> {
         vec![
@@ -156,6 +209,13 @@ impl Prop for C09 {
     fn run_worker(&self, ctx: &Ctx, rep: &mut Report) {
         let n = ctx.share(ctx.tier.pick(10_000, 150_000));
         drive(ctx, rep, "sessions", cases(), n, &mut |c: &Case| judge_case(c));
+        std::env::set_var("VERIF_MAX_SHRINK", "40");
+        let n = ctx.share(ctx.tier.pick(96, 1500));
+        drive(ctx, rep, "cli-pairs", cases(), n, &mut |c: &Case| judge_cli(c));
+        std::env::remove_var("VERIF_MAX_SHRINK");
+    }
+    fn needs_cli(&self) -> bool {
+        true
     }
     fn replay(&self, _ctx: &Ctx, case: &Value) -> Obs {
         match serde_json::from_value::<Case>(case.clone()) {
